@@ -53,6 +53,9 @@ enum Op {
     Dinx { a: u64, i: u64, src: u64 },
     /// the last data packet of client (i, a) replayed from a
     Rdin { a: u64, i: u64 },
+    /// forged handshake initiation from address a: `encrypted_static` is identity i's public key (taken from a
+    /// genuine initiation), the encrypted timestamp is corrupted and `mac1` recomputed (needs only public data)
+    Fhs { a: u64, i: u64 },
     /// not a WireGuard message
     Junk { a: u64 },
     Dout { a: u64 },
@@ -70,6 +73,7 @@ impl Op {
             Op::Din { a, i } => format!("din {a} {i}"),
             Op::Dinx { a, i, src } => format!("dinx {a} {i} {src}"),
             Op::Rdin { a, i } => format!("rdin {a} {i}"),
+            Op::Fhs { a, i } => format!("fhs {a} {i}"),
             Op::Junk { a } => format!("junk {a}"),
             Op::Dout { a } => format!("dout {a}"),
             Op::Tick => "tick".into(),
@@ -87,6 +91,7 @@ impl Op {
             "din" => Op::Din { a: n(1)?, i: n(2)? },
             "dinx" => Op::Dinx { a: n(1)?, i: n(2)?, src: n(3)? },
             "rdin" => Op::Rdin { a: n(1)?, i: n(2)? },
+            "fhs" => Op::Fhs { a: n(1)?, i: n(2)? },
             "junk" => Op::Junk { a: n(1)? },
             "dout" => Op::Dout { a: n(1)? },
             "tick" => Op::Tick,
@@ -167,6 +172,91 @@ fn wg_bytes(k: WgKind) -> Vec<u8> {
         WgKind::Data(p) => p.into_bytes()[..].to_vec(),
     }
 }
+/// BLAKE2s (RFC 7693), optional key, `outlen` ≤ 32 – only used to recompute `mac1` of a forged handshake.
+fn blake2s(key: &[u8], data: &[u8], outlen: usize) -> Vec<u8> {
+    const IV: [u32; 8] = [0x6A09E667, 0xBB67AE85, 0x3C6EF372, 0xA54FF53A, 0x510E527F, 0x9B05688C, 0x1F83D9AB, 0x5BE0CD19];
+    const SIGMA: [[usize; 16]; 10] = [
+        [0, 1, 2, 3, 4, 5, 6, 7, 8, 9, 10, 11, 12, 13, 14, 15],
+        [14, 10, 4, 8, 9, 15, 13, 6, 1, 12, 0, 2, 11, 7, 5, 3],
+        [11, 8, 12, 0, 5, 2, 15, 13, 10, 14, 3, 6, 7, 1, 9, 4],
+        [7, 9, 3, 1, 13, 12, 11, 14, 2, 6, 5, 10, 4, 0, 15, 8],
+        [9, 0, 5, 7, 2, 4, 10, 15, 14, 1, 11, 12, 6, 8, 3, 13],
+        [2, 12, 6, 10, 0, 11, 8, 3, 4, 13, 7, 5, 15, 14, 1, 9],
+        [12, 5, 1, 15, 14, 13, 4, 10, 0, 7, 6, 3, 9, 2, 8, 11],
+        [13, 11, 7, 14, 12, 1, 3, 9, 5, 0, 15, 4, 8, 6, 2, 10],
+        [6, 15, 14, 9, 11, 3, 0, 8, 12, 2, 13, 7, 1, 4, 10, 5],
+        [10, 2, 8, 4, 7, 6, 1, 5, 15, 11, 9, 14, 3, 12, 13, 0],
+    ];
+    fn compress(h: &mut [u32; 8], block: &[u8; 64], t: u64, last: bool) {
+        let mut m = [0u32; 16];
+        for i in 0..16 {
+            m[i] = u32::from_le_bytes(block[4 * i..4 * i + 4].try_into().unwrap());
+        }
+        let mut v = [0u32; 16];
+        v[..8].copy_from_slice(h);
+        v[8..].copy_from_slice(&IV);
+        v[12] ^= t as u32;
+        v[13] ^= (t >> 32) as u32;
+        if last {
+            v[14] = !v[14];
+        }
+        let g = |v: &mut [u32; 16], a: usize, b: usize, c: usize, d: usize, x: u32, y: u32| {
+            v[a] = v[a].wrapping_add(v[b]).wrapping_add(x);
+            v[d] = (v[d] ^ v[a]).rotate_right(16);
+            v[c] = v[c].wrapping_add(v[d]);
+            v[b] = (v[b] ^ v[c]).rotate_right(12);
+            v[a] = v[a].wrapping_add(v[b]).wrapping_add(y);
+            v[d] = (v[d] ^ v[a]).rotate_right(8);
+            v[c] = v[c].wrapping_add(v[d]);
+            v[b] = (v[b] ^ v[c]).rotate_right(7);
+        };
+        for r in 0..10 {
+            let s = &SIGMA[r];
+            g(&mut v, 0, 4, 8, 12, m[s[0]], m[s[1]]);
+            g(&mut v, 1, 5, 9, 13, m[s[2]], m[s[3]]);
+            g(&mut v, 2, 6, 10, 14, m[s[4]], m[s[5]]);
+            g(&mut v, 3, 7, 11, 15, m[s[6]], m[s[7]]);
+            g(&mut v, 0, 5, 10, 15, m[s[8]], m[s[9]]);
+            g(&mut v, 1, 6, 11, 12, m[s[10]], m[s[11]]);
+            g(&mut v, 2, 7, 8, 13, m[s[12]], m[s[13]]);
+            g(&mut v, 3, 4, 9, 14, m[s[14]], m[s[15]]);
+        }
+        for i in 0..8 {
+            h[i] ^= v[i] ^ v[i + 8];
+        }
+    }
+    let mut h = IV;
+    h[0] ^= 0x0101_0000 ^ ((key.len() as u32) << 8) ^ outlen as u32;
+    let mut input = vec![];
+    if !key.is_empty() {
+        let mut kb = [0u8; 64];
+        kb[..key.len()].copy_from_slice(key);
+        input.extend_from_slice(&kb);
+    }
+    input.extend_from_slice(data);
+    if input.is_empty() {
+        input.resize(64, 0);
+        let blk: [u8; 64] = input[..64].try_into().unwrap();
+        compress(&mut h, &blk, 0, true);
+    } else {
+        let n = input.len();
+        let nblocks = n.div_ceil(64);
+        input.resize(nblocks * 64, 0);
+        for b in 0..nblocks {
+            let blk: [u8; 64] = input[64 * b..64 * b + 64].try_into().unwrap();
+            let last = b + 1 == nblocks;
+            let t = if last { n as u64 } else { 64 * (b as u64 + 1) };
+            compress(&mut h, &blk, t, last);
+        }
+    }
+    let mut out = vec![];
+    for w in h {
+        out.extend_from_slice(&w.to_le_bytes());
+    }
+    out.truncate(outlen);
+    out
+}
+
 fn le32(b: &[u8], off: usize) -> u64 {
     u32::from_le_bytes(b[off..off + 4].try_into().unwrap()) as u64
 }
@@ -373,6 +463,17 @@ impl World {
                 err_name(result)
             }
         };
+        // ---- spec oracle: a tunnel entry (which from then on attributes everything at that address to `peer_static`)
+        // comes into being only through a handshake initiation that the holder of that key produced and that the
+        // tunnel accepted
+        if peer_before.is_none() {
+            if let Some(p) = peer_after {
+                let accepted = !rs.starts_with("err:");
+                if signer != Some(p) || !accepted {
+                    o.spec.push(("C09:attribution:unauthenticated-tunnel".into(), format!("tunnel entry for identity {p} created at address {a} by a packet produced by {signer:?} with result {rs}")));
+                }
+            }
+        }
         let mut net = vec![];
         for k in q.drain(..) {
             match k {
@@ -529,6 +630,23 @@ impl World {
                     }
                     None => self.apply(&Op::Junk { a: *a }, o),
                 }
+            }
+            Op::Fhs { a, i } => {
+                self.hs_ctr += 1;
+                let n = self.hs_ctr;
+                // a genuine initiation of identity i (scratch Tunn), then: corrupt the encrypted timestamp, fix mac1
+                let mut scratch = Tunn::new(secret(*i), self.server_pub, None, None, 77, self.client_rl.clone(), "10.0.0.1:5001".parse().unwrap());
+                let mut b = wg_bytes(scratch.format_handshake_initiation(true).expect("initiation").into());
+                assert_eq!(b.len(), 148);
+                b[100] ^= 0x01;
+                let mut label = b"mac1----".to_vec();
+                label.extend_from_slice(self.server_pub.as_bytes());
+                let mac1_key = blake2s(&[], &label, 32);
+                let mac1 = blake2s(&mac1_key, &b[..116], 16);
+                b[116..132].copy_from_slice(&mac1);
+                let out = self.incoming(*a, &b, None, None, None, o);
+                *o.kinds.entry("forged handshakes".into()).or_insert(0) += 1;
+                (format!("in {a} init - {i} {n} {n}"), out)
             }
             Op::Junk { a } => {
                 let out = self.incoming(*a, &[0xffu8; 40], None, None, None, o);
@@ -730,7 +848,8 @@ fn gen_random(rng: &mut Rng, maxlen: usize) -> Vec<Op> {
             81..=84 => Op::Rdin { a, i },
             85..=88 => Op::Rhs { a, i, src: rng.below(NA) },
             89..=92 => Op::Dinx { a, i, src: rng.below(NA) },
-            93..=95 => Op::Junk { a },
+            93..=94 => Op::Junk { a },
+            95..=96 => Op::Fhs { a, i },
             _ => Op::Tick,
         };
         v.push(op);
@@ -753,6 +872,7 @@ fn directed() -> Vec<(&'static str, &'static str)> {
         ("lapsed-tunnel-blocks-address", "reg 0 0 1; reg 1 1 8; hs 0 0; adv 1; hs 0 1; din 0 1; purge; hs 0 1"),
         ("replayed-handshake-other-address", "reg 0 0 8; hs 0 0; din 0 0; rhs 1 0 0; dout 1; din 1 0; rdin 0 0"),
         ("queued-outbound-then-lapse", "reg 0 0 2; hs 0 0; dout 0; dout 0; adv 2; din 0 0; reg 0 0 3; din 0 0"),
+        ("forged-handshake-creates-entry", "reg 0 0 8; reg 1 1 8; fhs 0 0; dout 0; hs 0 1; hs 0 0; din 0 0; fhs 1 2; fhs 0 1"),
         ("zero-lifetime", "reg 0 0 0; hs 0 0; dout 0; purge"),
         ("purge-then-traffic", "reg 0 0 1; hs 0 0; din 0 0; adv 1; purge; din 0 0; dout 0; tick"),
     ]
@@ -863,7 +983,11 @@ fn main() {
         for (k, n) in &o.kinds {
             rep.hit_n(k, *n);
         }
-        if nontrivial && h.len() <= 8 {
+        if o.kinds.contains_key("server data nobody could decrypt") && rep.notes.len() < 3 {
+            let small = shrink(h, &mut lean, &|o: &Outcome| o.kinds.contains_key("server data nobody could decrypt"));
+            rep.notes.push(format!("server data no harness client could decrypt (compared as data:?): {}", hist_line(&small)));
+        }
+        if (nontrivial && h.len() <= 8) || args.replay.is_some() {
             rep.sample(json!({"kind": kind, "history": hist_line(h), "trace": o.labels}));
         }
         if let Some((i, im, mo)) = &o.disagree {
